@@ -6,6 +6,7 @@ import Proofs.Parsers
 import Proofs.Metadata
 import Props.C08
 import Proofs.ParserMulti
+import Proofs.Accept
 import Facts.Generated
 namespace C10
 open Esdt
@@ -220,7 +221,36 @@ example : (match multiTransferSender C01.nvEnv C01.nvMXfer { accts := C01.nvMA0 
        | _ => [])
     | _ => []) = [(C01.nvNFT, 1, 2), (C01.nvFT, 0, 5), (C01.nvNFT, 1, 1)] := by decide +kernel
 
--- PARTIAL: "the destination shard's function of the same name accepts the continuation" (a liveness-style statement about a
+/-- FULL for the create-role hand-over ("when it continues a built-in operation on another shard, that shard's built-in
+    function of the same name accepts it"): the message a successful current-holder step emits towards another shard —
+    token and the OLD counter, an EMPTY argument when nothing was created yet — delivered on the next holder's shard with
+    the previous holder as caller, SUCCEEDS, whatever the destination account holds: total correctness, not "if it
+    succeeds".  The only premises are that the destination's role list for the token decodes and, extended by one role,
+    still fits a Go slice (both hold on every state the functions themselves wrote: C14 / the marshal guard), and that no
+    dependency fault is injected. -/
+theorem handover_continuation_accepted (envS envD : Env) (cS : Call) (ctxS ctxS' ctxD : Ctx) (outS : VMOutput)
+    (hsys : cS.caller = esdtSCAddress)
+    (hS : esdtNFTCreateRoleTransfer envS cS ctxS = .ok (outS, ctxS'))
+    (tok dest : Bytes) (hargs : cS.args = [tok, dest])
+    (hprev : cS.rcv ≠ esdtSCAddress)
+    (hsnd : present envD.nshards envD.self cS.rcv = false) (hdst : present envD.nshards envD.self dest = true)
+    (hnf : ctxD.failAt = none) (roles : List Bytes)
+    (hroles : rolesOf (ctxD.accts.read dest (roleKeyPrefix ++ tok)) = some roles)
+    (hlen : (encRoles (roles ++ [roleNFTCreate])).length < two63) :
+    ∃ tr nb, outS.outAccts = [{ addr := dest, balance := some 0, delta := some 0, transfers := [tr] }] ∧
+      parseCall tr.data = .ok (fnESDTNFTCreateRoleTransfer, [tok, nb]) ∧
+      ∃ outD ctxD', esdtNFTCreateRoleTransfer envD
+        { fn := fnESDTNFTCreateRoleTransfer, caller := cS.rcv, rcv := dest, args := [tok, nb] } ctxD = .ok (outD, ctxD') ∧
+        outD.rc = 0 := by
+  obtain ⟨tok1, dest1, _, hargs1, _, _, _, tr, hout, hdata⟩ := (handover_current_x envS cS ctxS hsys).elim hS
+  rw [hargs] at hargs1
+  injection hargs1 with e1 e2
+  injection e2 with e2 _
+  subst e1; subst e2
+  refine ⟨tr, _, hout, by rw [hdata, parseCall_encodeCall _ _ (by decide) (by decide)], ?_⟩
+  exact handover_delivery_accepted envD _ ctxD tok _ hnf rfl rfl hprev hsnd hdst roles hroles hlen
+
+-- PARTIAL: "the destination shard's function of the same name accepts the continuation" for the TRANSFER functions (a liveness-style statement about a
 -- successful result: refusals for frozen / paused / non-payable / other-hash destinations are legitimate) is decided by the
 -- C10 oracle (real parser run on every accepted transfer call and compared with the ledger diff; every emitted message
 -- delivered) and the correspondence check.
